@@ -256,6 +256,57 @@ def judge(fmt, pres, truth, full, N, step_ends, boundaries=None):
     return None
 
 
+def interrupted_run_images(st, Ns):
+    """'Interrupted run' injector: the REAL library writer runs in a forked child
+    whose file-size limit is N bytes (the kernel refuses every byte beyond N: a
+    disk-full / quota fault at an exact offset).  Returns {N: bytes left on disk}
+    plus the complete output of the same writer.  Used to cross-check the crash
+    model 'a sequential writer interrupted at byte N leaves the N-byte prefix'."""
+    from . import scen_ack_camx as ack
+    f = st.file
+    spec = dict(f['spec'], fmt=f['fmt'], special=False, srcdtype='f', layout='C')
+    if f['fmt'] == 'uamiv':
+        spec.setdefault('note', 'stub producer')
+        spec.setdefault('name', 'AVERAGE')
+    truth = ack.truth_of(spec)
+    out = {}
+    path = st.w.path('interrupted.' + f['fmt'])
+
+    def run(limit):
+        pid = os.fork()
+        if pid == 0:
+            try:
+                resource.setrlimit(resource.RLIMIT_CPU, (CPU_CAP_S, CPU_CAP_S + 1))
+                if limit is not None:
+                    signal.signal(signal.SIGXFSZ, signal.SIG_IGN)
+                    resource.setrlimit(resource.RLIMIT_FSIZE, (limit, limit))
+                src = ack.build_source(spec, truth)
+                h = ack.library_write(src, path, f['fmt'], spec)
+                try:
+                    h.close()
+                except BaseException:
+                    pass
+            except BaseException:
+                os._exit(3)
+            os._exit(0)
+        _, status = os.waitpid(pid, 0)
+        raised = os.WIFEXITED(status) and os.WEXITSTATUS(status) == 3
+        try:
+            with open(path, 'rb') as fh:
+                b = fh.read()
+        except OSError:
+            b = None
+        try:
+            os.remove(path)
+        except OSError:
+            pass
+        return b, raised
+    complete, _ = run(None)
+    for N in Ns:
+        out[N] = run(N)
+    return complete, out
+
+
 def cutclass(N, meta, rec_bounds):
     if N in meta['step_ends']:
         return 'step-boundary'
@@ -394,7 +445,12 @@ def gen_op(rng, st):
                 keep = set(rng.sample(Ns, 900))
                 keep.update(x for x in f['meta']['step_ends'] if x < size)
                 Ns = sorted(keep)
+        st.todo = 'xcheck' if (c['format'] != 'bpch' and rng.random() < 0.3) else 'done'
+        st.xN = sorted(set(rng.randrange(1, size) for _ in range(10)))
         return {'op': 'cuts', 'Ns': Ns, 'exhaustive': bool(c['exhaustive'])}
+    if st.todo == 'xcheck':
+        st.todo = 'done'
+        return {'op': 'interrupted_run', 'Ns': st.xN}
     return None
 
 
@@ -499,6 +555,38 @@ def apply(st, op):
         w.abstract(fmt, len(f['meta']['step_ends']), f['spec']['nx'], f['spec']['ny'],
                    f['spec']['nz'], len(Ns))
         return {'cuts': len(res), 'summary': summary}
+    if o == 'interrupted_run':
+        f = st.file
+        if f is None or not f.get('full_ok'):
+            return {'note': 'noop'}
+        try:
+            complete, imgs = interrupted_run_images(st, op['Ns'])
+        except BaseException as e:
+            return {'note': 'injector unavailable: %s' % type(e).__name__}
+        if complete is None:
+            return {'note': 'library writer produced no file'}
+        agree = 0
+        raised = 0
+        for N, (b, r) in sorted(imgs.items()):
+            w.fault('disk_full_during_real_writer')
+            raised += 1 if r else 0
+            if b is not None and N <= len(complete) and b == complete[:N]:
+                agree += 1
+                w.probe('interrupted_run_image_equals_prefix')
+            elif N > len(complete) and b == complete:
+                agree += 1
+            else:
+                w.probe('interrupted_run_image_differs_from_prefix')
+        st.stats['interrupted_runs'] = st.stats.get('interrupted_runs', 0) + len(imgs)
+        st.stats['interrupted_run_equals_prefix'] = \
+            st.stats.get('interrupted_run_equals_prefix', 0) + agree
+        st.stats['interrupted_writer_raised'] = st.stats.get('interrupted_writer_raised', 0) + raised
+        # the torn images the real writer leaves are judged like any other cut
+        torn = sorted(N for N, (b, r) in imgs.items()
+                      if b is not None and N < len(f['bytes']) and b == f['bytes'][:N])
+        if torn:
+            w.probe('interrupted_run_image_identical_to_stub_prefix', len(torn))
+        return {'agree': agree, 'of': len(imgs), 'writer_raised': raised}
     raise HarnessError('unknown op %r' % (op,))
 
 
